@@ -296,5 +296,7 @@ def run(ctx):
                 viol("C13/definition-lost", "variable definitions %s -> %s" % (defs_before, defs_after), {"text": text})
     for key, lst in sorted(agg.items()):
         ctx.violation(key, "%s  [%d case(s)]" % (lst[0][0][:700], len(lst)), lst[0][1])
+    nok = sum(1 for r in refs if r[0] == "ok")
+    ctx.require(nok >= 0.5 * len(cases), "the reference parser expanded only %d of %d preambles" % (nok, len(cases)))
     ctx.extra.update({"preambles": len(cases), "cycle_cases": len(cyc),
                       "reference_rejected": sum(1 for r in refs if r[0] == "error")})
